@@ -5,8 +5,12 @@
    - decoding is invariant under re-chunking of the byte stream (text_chunking_invariant);
    - receive() never returns an empty string, k receives consume a prefix of the wire and return exactly
      what chunk-by-chunk decoding of that prefix gives (text_receive_drains, text_stream_transparent);
-   - encode/decode round trips for utf-8 and latin-1, through any re-chunking and through the stream model;
-   - the round-trip clause is refuted for 'utf-16'/'utf-32' (one BOM per send). *)
+   - utf-8: decoding inverts encoding (utf8_roundtrip_bytes) and the decoder accepts nothing but canonical
+     encodings of scalar values (utf8_decode_sound);
+   - encode/decode round trips through any re-chunking and through the stream model: utf-8 and latin-1
+     (text_roundtrip, text_roundtrip_stream), and every encoding of the model on HEAD, where the stateful
+     encoder writes one BOM (text_roundtrip_all, text_roundtrip_stream_all);
+   - the round-trip clause is refuted for 'utf-16'/'utf-32' with the pinned stateless encoder (a BOM per send). *)
 From AV Require Import Base Text.
 From Coq Require Import ZifyBool.
 Open Scope Z_scope.
@@ -31,34 +35,40 @@ Proof.
     now rewrite app_assoc.
 Qed.
 
+Definition cls_nm (c : cls) : option nat := match c with Out _ n => n | _ => None end.
+
 Lemma u8_classify_nm p cps nm : u8_classify p = Out cps nm -> nm = None.
 Proof.
   unfold u8_classify.
   destruct p as [|b0 [|b1 [|b2 [|b3 [|b4 p]]]]]; try discriminate;
     repeat match goal with |- context [if ?c then _ else _] => destruct c end;
-    try discriminate; intros H; inversion H; reflexivity.
+    try discriminate; intros H; apply (f_equal cls_nm) in H; exact (eq_sym H).
 Qed.
 
 Lemma latin1_classify_nm p cps nm : latin1_classify p = Out cps nm -> nm = None.
 Proof.
   unfold latin1_classify. destruct p as [|b0 [|b1 p]]; try discriminate.
-  intros H; inversion H; reflexivity.
+  intros H; apply (f_equal cls_nm) in H; exact (eq_sym H).
 Qed.
 
+(* (no `injection`/`inversion` on the code-point arithmetic: they are slow on these terms) *)
 Lemma u16_classify_nm le nm p cps nm' : u16_classify le nm p = Out cps nm' -> nm' = nm.
 Proof.
   unfold u16_classify.
-  destruct p as [|b0 [|b1 [|b2 [|b3 [|b4 p]]]]]; try discriminate; cbv zeta;
-    repeat match goal with |- context [if ?c then _ else _] => destruct c end;
-    try discriminate; intros H; inversion H; reflexivity.
+  destruct p as [|b0 [|b1 [|b2 [|b3 [|b4 p]]]]]; cbv beta zeta; try discriminate.
+  - destruct (is_lo (unit16 le b0 b1)); [discriminate|].
+    destruct (is_hi (unit16 le b0 b1)); [discriminate|].
+    intros H; apply (f_equal cls_nm) in H; exact (eq_sym H).
+  - destruct (is_lo (unit16 le b2 b3)); [|discriminate].
+    intros H; apply (f_equal cls_nm) in H; exact (eq_sym H).
 Qed.
 
 Lemma u32_classify_nm le nm p cps nm' : u32_classify le nm p = Out cps nm' -> nm' = nm.
 Proof.
   unfold u32_classify.
-  destruct p as [|b0 [|b1 [|b2 [|b3 [|b4 p]]]]]; try discriminate; cbv zeta;
-    repeat match goal with |- context [if ?c then _ else _] => destruct c end;
-    try discriminate; intros H; inversion H; reflexivity.
+  destruct p as [|b0 [|b1 [|b2 [|b3 [|b4 p]]]]]; cbv beta zeta; try discriminate.
+  destruct (valid_scalar (unit32 le b0 b1 b2 b3)); [|discriminate].
+  intros H; apply (f_equal cls_nm) in H; exact (eq_sym H).
 Qed.
 
 Lemma classify_mode3 e p cps nm : classify e 3%nat p = Out cps nm -> nm = None.
@@ -254,7 +264,7 @@ Qed.
 (* ------------------------------------------------------------------------------------------------------------ *)
 (* utf-8: the decoder inverts the encoder *)
 
-Ltac bool_cases :=
+Local Ltac bool_cases :=
   repeat match goal with
          | |- context [if ?c then _ else _] =>
              lazymatch c with
@@ -268,7 +278,7 @@ Definition sec_ok (b0 b1 : Z) : Prop :=
   0x80 <= b1 <= 0xBF /\ (b0 = 0xE0 -> 0xA0 <= b1) /\ (b0 = 0xED -> b1 <= 0x9F) /\
   (b0 = 0xF0 -> 0x90 <= b1) /\ (b0 = 0xF4 -> b1 <= 0x8F).
 
-Ltac sec_ok_tac := unfold sec_ok; refine (conj _ (conj _ (conj _ (conj _ _)))); lia.
+Local Ltac sec_ok_tac := unfold sec_ok; refine (conj _ (conj _ (conj _ (conj _ _)))); lia.
 
 Lemma u8c_1 b : 0 <= b <= 0x7F -> u8_classify [b] = Out [b] None.
 Proof. intros H. unfold u8_classify, inr. bool_cases. Qed.
@@ -280,15 +290,31 @@ Lemma u8c_2 b0 b1 : 0xC2 <= b0 <= 0xDF -> 0x80 <= b1 <= 0xBF ->
   u8_classify [b0; b1] = Out [(b0 - 0xC0) * 64 + (b1 - 0x80)] None.
 Proof. intros H0 H1. unfold u8_classify, is_cont, inr. bool_cases. Qed.
 
+Lemma sec_ok_true b0 b1 : 0xE0 <= b0 <= 0xF4 -> sec_ok b0 b1 -> u8_second_ok b0 b1 = true.
+Proof.
+  intros H0 (Ha & Hb & Hc & Hd & He). unfold u8_second_ok, is_cont, inr.
+  destruct (Z.eqb_spec b0 0xE0); [lia|]. destruct (Z.eqb_spec b0 0xED); [lia|].
+  destruct (Z.eqb_spec b0 0xF0); [lia|]. destruct (Z.eqb_spec b0 0xF4); lia.
+Qed.
+
 Lemma u8c_2more b0 b1 : 0xE0 <= b0 <= 0xF4 -> sec_ok b0 b1 -> u8_classify [b0; b1] = More.
-Proof. intros H0 H1. unfold sec_ok in H1. unfold u8_classify, u8_second_ok, is_cont, inr. bool_cases. Qed.
+Proof.
+  intros H0 H1. unfold u8_classify. rewrite (sec_ok_true _ _ H0 H1). unfold inr. bool_cases.
+Qed.
 
-Lemma u8c_3 b0 b1 b2 : 0xE0 <= b0 <= 0xEF -> 0x80 <= b2 <= 0xBF ->
+Lemma u8c_3 b0 b1 b2 : 0xE0 <= b0 <= 0xEF -> sec_ok b0 b1 -> 0x80 <= b2 <= 0xBF ->
   u8_classify [b0; b1; b2] = Out [(b0 - 0xE0) * 4096 + (b1 - 0x80) * 64 + (b2 - 0x80)] None.
-Proof. intros H0 H2. unfold u8_classify, is_cont, inr, negb. bool_cases. Qed.
+Proof.
+  intros H0 H1 H2. unfold u8_classify. rewrite sec_ok_true by (assumption || lia).
+  unfold is_cont, inr. cbn [negb]. rewrite orb_false_r. bool_cases.
+Qed.
 
-Lemma u8c_3more b0 b1 b2 : 0xF0 <= b0 <= 0xF4 -> 0x80 <= b2 <= 0xBF -> u8_classify [b0; b1; b2] = More.
-Proof. intros H0 H2. unfold u8_classify, is_cont, inr, negb. bool_cases. Qed.
+Lemma u8c_3more b0 b1 b2 : 0xF0 <= b0 <= 0xF4 -> sec_ok b0 b1 -> 0x80 <= b2 <= 0xBF ->
+  u8_classify [b0; b1; b2] = More.
+Proof.
+  intros H0 H1 H2. unfold u8_classify. rewrite sec_ok_true by (assumption || lia).
+  unfold is_cont, inr. cbn [negb]. rewrite orb_false_r. bool_cases.
+Qed.
 
 Lemma u8c_4 b0 b1 b2 b3 : 0x80 <= b3 <= 0xBF ->
   u8_classify [b0; b1; b2; b3] =
@@ -304,7 +330,7 @@ Lemma dstep_u8 p b :
   end.
 Proof. reflexivity. Qed.
 
-Notation u8_rest r cp :=
+Local Notation u8_rest r cp :=
   (match run_bytes Utf8 (mkd 1 []) r with DErr c => DErr c | DOk s2 o2 => DOk s2 (cp :: o2) end).
 
 Lemma u8_run1 b r : 0 <= b <= 0x7F -> run_bytes Utf8 (mkd 1 []) (b :: r) = u8_rest r b.
@@ -400,38 +426,249 @@ Proof.
   change (dinit Latin1) with (mkd 1 []).
   induction s as [|b s IH]; [reflexivity|].
   cbn [run_bytes]. change (dstep Latin1 (mkd 1 []) b) with (DOk (mkd 1 []) [b]).
+  cbv beta iota.
   rewrite IH. reflexivity.
 Qed.
 
 (* ------------------------------------------------------------------------------------------------------------ *)
-(* round trips through arbitrary re-chunking *)
+(* utf-8: the decoder accepts nothing but canonical encodings of scalar values *)
 
-Lemma enc_utf8_concat ss bs : Forall2 (fun s b => encode Utf8 s = Some b) ss bs ->
-  forallb valid_scalar (concat ss) = true /\ concat bs = concat (map u8_enc1 (concat ss)).
+Lemma DOk_inj s o s' o' : DOk s o = DOk s' o' -> s = s' /\ o = o'.
 Proof.
-  induction 1 as [|s b ss bs H _ IH]; cbn [concat map]; [split; reflexivity|].
-  unfold encode in H. destruct (forallb valid_scalar s) eqn:E; [|discriminate].
-  inversion H; subst. destruct IH as [IH1 IH2]. split.
-  - rewrite forallb_app, E, IH1. reflexivity.
-  - rewrite map_app, concat_app, IH2. reflexivity.
+  intros H. split.
+  - exact (f_equal (fun r => match r with DOk a _ => a | DErr _ => s end) H).
+  - exact (f_equal (fun r => match r with DOk _ b => b | DErr _ => o end) H).
 Qed.
 
-Lemma enc_latin1_concat ss bs : Forall2 (fun s b => encode Latin1 s = Some b) ss bs -> concat bs = concat ss.
+Lemma u8c_inv1 b :
+  (u8_classify [b] = Out [b] None /\ 0 <= b <= 0x7F) \/
+  (u8_classify [b] = More /\ 0xC2 <= b <= 0xF4) \/
+  u8_classify [b] = Bad 2.
 Proof.
-  induction 1 as [|s b ss bs H _ IH]; cbn [concat]; [reflexivity|].
-  unfold encode in H. destruct (forallb (inr 0 255) s); [|discriminate].
-  inversion H; subst. rewrite IH. reflexivity.
+  unfold u8_classify, inr.
+  destruct ((0 <=? b) && (b <=? 0x7F)) eqn:E1; [left; split; [reflexivity|lia]|].
+  destruct ((0xC2 <=? b) && (b <=? 0xF4)) eqn:E2; [right; left; split; [reflexivity|lia]|].
+  right; right; reflexivity.
+Qed.
+
+Lemma u8c_inv2 b0 b1 :
+  (u8_classify [b0; b1] = Out [(b0 - 0xC0) * 64 + (b1 - 0x80)] None /\
+   0xC2 <= b0 <= 0xDF /\ 0x80 <= b1 <= 0xBF) \/
+  (u8_classify [b0; b1] = More /\ ~ (0xC2 <= b0 <= 0xDF) /\ u8_second_ok b0 b1 = true) \/
+  (u8_classify [b0; b1] = More /\ u8_second_ok b0 b1 = false) \/
+  u8_classify [b0; b1] = Bad 2.
+Proof.
+  unfold u8_classify, is_cont, inr.
+  destruct ((0xC2 <=? b0) && (b0 <=? 0xDF)) eqn:E1.
+  - destruct ((0x80 <=? b1) && (b1 <=? 0xBF)) eqn:E2.
+    + left. split; [reflexivity|lia].
+    + right; right; right; reflexivity.
+  - destruct (u8_second_ok b0 b1) eqn:E2.
+    + right; left. split; [reflexivity|]. split; [lia|reflexivity].
+    + destruct ((b0 =? 0xED) && ((0xA0 <=? b1) && (b1 <=? 0xBF))).
+      * right; right; left. split; reflexivity.
+      * right; right; right; reflexivity.
+Qed.
+
+Lemma u8c_inv3 b0 b1 b2 :
+  (u8_classify [b0; b1; b2] = Out [(b0 - 0xE0) * 4096 + (b1 - 0x80) * 64 + (b2 - 0x80)] None /\
+   0xE0 <= b0 <= 0xEF /\ u8_second_ok b0 b1 = true /\ 0x80 <= b2 <= 0xBF) \/
+  (u8_classify [b0; b1; b2] = More /\ ~ (0xE0 <= b0 <= 0xEF) /\ u8_second_ok b0 b1 = true /\
+   0x80 <= b2 <= 0xBF) \/
+  u8_classify [b0; b1; b2] = Bad 2.
+Proof.
+  unfold u8_classify, is_cont, inr.
+  destruct ((0x80 <=? b2) && (b2 <=? 0xBF)) eqn:E1; cbn [negb orb]; [|right; right; reflexivity].
+  destruct (u8_second_ok b0 b1) eqn:E2; cbn [negb]; [|right; right; reflexivity].
+  destruct ((0xE0 <=? b0) && (b0 <=? 0xEF)) eqn:E3.
+  - left. split; [reflexivity|]. split; [lia|]. split; [reflexivity|lia].
+  - right; left. split; [reflexivity|]. split; [lia|]. split; [reflexivity|lia].
+Qed.
+
+Lemma u8c_inv4 b0 b1 b2 b3 :
+  (u8_classify [b0; b1; b2; b3] =
+   Out [(b0 - 0xF0) * 262144 + (b1 - 0x80) * 4096 + (b2 - 0x80) * 64 + (b3 - 0x80)] None /\
+   0x80 <= b3 <= 0xBF) \/
+  u8_classify [b0; b1; b2; b3] = Bad 2.
+Proof.
+  unfold u8_classify, is_cont, inr.
+  destruct ((0x80 <=? b3) && (b3 <=? 0xBF)) eqn:E1; [left; split; [reflexivity|lia]|right; reflexivity].
+Qed.
+
+Lemma sec_ok_of_true b0 b1 : 0xE0 <= b0 <= 0xF4 -> u8_second_ok b0 b1 = true -> sec_ok b0 b1.
+Proof.
+  intros H0. unfold u8_second_ok, is_cont, inr, sec_ok.
+  destruct (Z.eqb_spec b0 0xE0); [intros; lia|]. destruct (Z.eqb_spec b0 0xED); [intros; lia|].
+  destruct (Z.eqb_spec b0 0xF0); [intros; lia|]. destruct (Z.eqb_spec b0 0xF4); intros; lia.
+Qed.
+
+Lemma dec1_enc b : 0 <= b <= 0x7F -> valid_scalar b = true /\ u8_enc1 b = [b].
+Proof.
+  intros H. split; [apply valid_scalar_spec; lia|].
+  unfold u8_enc1. destruct (Z.ltb_spec b 0x80); [reflexivity|lia].
+Qed.
+
+Lemma dec2_enc b0 b1 cp : 0xC2 <= b0 <= 0xDF -> 0x80 <= b1 <= 0xBF ->
+  cp = (b0 - 0xC0) * 64 + (b1 - 0x80) ->
+  valid_scalar cp = true /\ u8_enc1 cp = [b0; b1].
+Proof.
+  intros H0 H1 Hcp. assert (Hr : 0x80 <= cp < 0x800) by lia.
+  split; [apply valid_scalar_spec; lia|]. unfold u8_enc1.
+  destruct (Z.ltb_spec cp 0x80); [lia|]. destruct (Z.ltb_spec cp 0x800); [|lia].
+  f_equal; [lia|]. f_equal; lia.
+Qed.
+
+Lemma dec3_enc b0 b1 b2 cp : 0xE0 <= b0 <= 0xEF -> sec_ok b0 b1 -> 0x80 <= b2 <= 0xBF ->
+  cp = (b0 - 0xE0) * 4096 + (b1 - 0x80) * 64 + (b2 - 0x80) ->
+  valid_scalar cp = true /\ u8_enc1 cp = [b0; b1; b2].
+Proof.
+  intros H0 (Ha & Hb & Hc & Hd & He) H2 Hcp.
+  assert (Hr : 0x800 <= cp < 0x10000) by lia.
+  assert (Hs : cp < 0xD800 \/ 0xDFFF < cp) by lia.
+  split; [apply valid_scalar_spec; lia|]. unfold u8_enc1.
+  destruct (Z.ltb_spec cp 0x80); [lia|]. destruct (Z.ltb_spec cp 0x800); [lia|].
+  destruct (Z.ltb_spec cp 0x10000); [|lia].
+  f_equal; [lia|]. f_equal; [lia|]. f_equal; lia.
+Qed.
+
+Lemma dec4_enc b0 b1 b2 b3 cp : 0xF0 <= b0 <= 0xF4 -> sec_ok b0 b1 -> 0x80 <= b2 <= 0xBF ->
+  0x80 <= b3 <= 0xBF ->
+  cp = (b0 - 0xF0) * 262144 + (b1 - 0x80) * 4096 + (b2 - 0x80) * 64 + (b3 - 0x80) ->
+  valid_scalar cp = true /\ u8_enc1 cp = [b0; b1; b2; b3].
+Proof.
+  intros H0 (Ha & Hb & Hc & Hd & He) H2 H3 Hcp.
+  assert (Hr : 0x10000 <= cp <= 0x10FFFF) by lia.
+  split; [apply valid_scalar_spec; lia|]. unfold u8_enc1.
+  destruct (Z.ltb_spec cp 0x80); [lia|]. destruct (Z.ltb_spec cp 0x800); [lia|].
+  destruct (Z.ltb_spec cp 0x10000); [lia|].
+  f_equal; [lia|]. f_equal; [lia|]. f_equal; [lia|]. f_equal; lia.
+Qed.
+
+Local Ltac u8_dead H := cbn [run_bytes] in H; apply DOk_inj in H; destruct H as [H _]; discriminate H.
+Local Ltac u8_step H := cbn [run_bytes] in H; rewrite dstep_u8 in H; cbn [app] in H.
+
+(* a successful run that ends with nothing pending starts with the canonical encoding of a scalar value *)
+Lemma u8_unit_inv bs s : bs <> [] -> run_bytes Utf8 (mkd 1 []) bs = DOk (mkd 1 []) s ->
+  exists cp r s', bs = u8_enc1 cp ++ r /\ valid_scalar cp = true /\ s = cp :: s' /\
+                  run_bytes Utf8 (mkd 1 []) r = DOk (mkd 1 []) s'.
+Proof.
+  intros Hne H. destruct bs as [|b0 r0]; [contradiction|]. clear Hne.
+  u8_step H.
+  destruct (u8c_inv1 b0) as [(E & Hb0)|[(E & Hb0)|E]]; rewrite E in H; cbv beta iota in H; [ | |discriminate].
+  { (* one byte *)
+    destruct (run_bytes Utf8 (mkd 1 []) r0) as [s2 o2|] eqn:ER; [|discriminate].
+    cbn [app] in H. apply DOk_inj in H. destruct H as [-> <-].
+    destruct (dec1_enc b0 Hb0) as [Hv He].
+    exists b0, r0, o2. rewrite He. refine (conj _ (conj Hv (conj _ ER))); reflexivity. }
+  destruct r0 as [|b1 r1]; [u8_dead H|]. u8_step H.
+  destruct (u8c_inv2 b0 b1) as [(E2 & Hb0' & Hb1)|[(E2 & Hb0' & Hsec)|[(E2 & Hsec)|E2]]];
+    rewrite E2 in H; cbv beta iota in H; [ | | |discriminate].
+  { (* two bytes *)
+    destruct (run_bytes Utf8 (mkd 1 []) r1) as [s2 o2|] eqn:ER; [|discriminate].
+    cbn [app] in H. apply DOk_inj in H. destruct H as [-> <-].
+    destruct (dec2_enc b0 b1 _ Hb0' Hb1 eq_refl) as [Hv He].
+    eexists _, r1, o2. rewrite He. refine (conj _ (conj Hv (conj _ ER))); reflexivity. }
+  { assert (Hb0e : 0xE0 <= b0 <= 0xF4) by lia.
+    pose proof (sec_ok_of_true _ _ Hb0e Hsec) as Hso.
+    destruct r1 as [|b2 r2]; [u8_dead H|]. u8_step H.
+    destruct (u8c_inv3 b0 b1 b2) as [(E3 & Hb0'' & _ & Hb2)|[(E3 & Hb0'' & _ & Hb2)|E3]];
+      rewrite E3 in H; cbv beta iota in H; [ | |discriminate].
+    { (* three bytes *)
+      destruct (run_bytes Utf8 (mkd 1 []) r2) as [s2 o2|] eqn:ER; [|discriminate].
+      cbn [app] in H. apply DOk_inj in H. destruct H as [-> <-].
+      destruct (dec3_enc b0 b1 b2 _ Hb0'' Hso Hb2 eq_refl) as [Hv He].
+      eexists _, r2, o2. rewrite He. refine (conj _ (conj Hv (conj _ ER))); reflexivity. }
+    assert (Hb0f : 0xF0 <= b0 <= 0xF4) by lia.
+    destruct r2 as [|b3 r3]; [u8_dead H|]. u8_step H.
+    destruct (u8c_inv4 b0 b1 b2 b3) as [(E4 & Hb3)|E4]; rewrite E4 in H; cbv beta iota in H; [|discriminate].
+    (* four bytes *)
+    destruct (run_bytes Utf8 (mkd 1 []) r3) as [s2 o2|] eqn:ER; [|discriminate].
+    cbn [app] in H. apply DOk_inj in H. destruct H as [-> <-].
+    destruct (dec4_enc b0 b1 b2 b3 _ Hb0f Hso Hb2 Hb3 eq_refl) as [Hv He].
+    eexists _, r3, o2. rewrite He. refine (conj _ (conj Hv (conj _ ER))); reflexivity. }
+  (* ED A0..BF kept pending: the third byte fails *)
+  destruct r1 as [|b2 r2]; [u8_dead H|]. u8_step H.
+  destruct (u8c_inv3 b0 b1 b2) as [(E3 & _ & Hsec' & _)|[(E3 & _ & Hsec' & _)|E3]];
+    [congruence|congruence|]. rewrite E3 in H. discriminate.
+Qed.
+
+Lemma u8_enc1_nonempty cp : (0 < length (u8_enc1 cp))%nat.
+Proof.
+  unfold u8_enc1. destruct (cp <? 0x80); [cbn; lia|]. destruct (cp <? 0x800); [cbn; lia|].
+  destruct (cp <? 0x10000); cbn; lia.
+Qed.
+
+Lemma utf8_decode_sound_aux n : forall bs s, (length bs <= n)%nat ->
+  run_bytes Utf8 (mkd 1 []) bs = DOk (mkd 1 []) s ->
+  forallb valid_scalar s = true /\ concat (map u8_enc1 s) = bs.
+Proof.
+  induction n as [|n IH]; intros bs s Hl H.
+  - destruct bs; [|cbn in Hl; lia]. cbn in H. apply DOk_inj in H. destruct H as [_ <-]. split; reflexivity.
+  - destruct bs as [|b0 r0].
+    + cbn in H. apply DOk_inj in H. destruct H as [_ <-]. split; reflexivity.
+    + destruct (u8_unit_inv (b0 :: r0) s) as (cp & r & s' & Hbs & Hv & -> & Hr); [discriminate|exact H|].
+      assert (Hlr : (length r <= n)%nat).
+      { apply (f_equal (@length Z)) in Hbs. rewrite app_length in Hbs. cbn [length] in Hbs, Hl.
+        pose proof (u8_enc1_nonempty cp). lia. }
+      destruct (IH r s' Hlr Hr) as [IH1 IH2].
+      cbn [forallb map concat]. rewrite Hv, IH1, IH2, Hbs. split; reflexivity.
+Qed.
+
+(* the decoder accepts only canonical encodings of scalar values (bytes are arbitrary integers) *)
+Theorem utf8_decode_sound bs s : run_bytes Utf8 (dinit Utf8) bs = DOk (dinit Utf8) s ->
+  forallb valid_scalar s = true /\ concat (map u8_enc1 s) = bs.
+Proof. apply (utf8_decode_sound_aux (length bs)). apply Nat.le_refl. Qed.
+
+(* ------------------------------------------------------------------------------------------------------------ *)
+(* round trips through arbitrary re-chunking *)
+
+(* per-code-point encoder and encodability test of every encoding *)
+Definition enc1 (e : enc) : Z -> list Z :=
+  match e with
+  | Utf8 => u8_enc1
+  | Latin1 => fun c => [c]
+  | Utf16 | Utf16LE => u16_enc1 true
+  | Utf16BE => u16_enc1 false
+  | Utf32 | Utf32LE => u32_enc1 true
+  | Utf32BE => u32_enc1 false
+  end.
+Definition okc (e : enc) : Z -> bool :=
+  match e with Latin1 => inr 0 255 | _ => valid_scalar end.
+
+Lemma concat_map_single (s : list Z) : concat (map (fun c => [c]) s) = s.
+Proof. induction s as [|c s IH]; [reflexivity|]. cbn [map concat app]. now rewrite IH. Qed.
+
+Lemma encode_body_spec e s :
+  encode_body e s = if forallb (okc e) s then Some (concat (map (enc1 e) s)) else None.
+Proof. destruct e; cbn [encode_body okc enc1]; try reflexivity. now rewrite concat_map_single. Qed.
+
+Lemma send_all_concat e ss : forall st bs, send_all e st ss = Some bs ->
+  forallb (okc e) (concat ss) = true /\
+  concat bs = match ss with [] => [] | _ :: _ => if st then [] else bom e end ++ concat (map (enc1 e) (concat ss)).
+Proof.
+  induction ss as [|s r IH]; intros st bs H; cbn [send_all] in H.
+  - inversion H; subst. split; reflexivity.
+  - unfold encode in H. rewrite encode_body_spec in H.
+    destruct (forallb (okc e) s) eqn:E; [|discriminate].
+    destruct (send_all e true r) as [bs'|] eqn:E2; [|discriminate].
+    inversion H; subst. destruct (IH _ _ E2) as [IH1 IH2]. cbn [concat]. split.
+    + rewrite forallb_app, E, IH1. reflexivity.
+    + rewrite IH2, map_app, concat_app, <- app_assoc. f_equal. f_equal.
+      destruct r; reflexivity.
 Qed.
 
 (* strings ss sent one by one (each send encodes one item), the byte stream re-chunked in ANY way w, then decoded *)
 Theorem text_roundtrip e ss bs w : (e = Utf8 \/ e = Latin1) ->
-  Forall2 (fun s b => encode e s = Some b) ss bs -> concat w = concat bs ->
+  send_all e false ss = Some bs -> concat w = concat bs ->
   decode_seq e (dinit e) w = DOk (dinit e) (concat ss).
 Proof.
   intros He HF Hc. apply text_chunking_invariant; [apply dinit_mode|]. rewrite Hc.
-  apply decode_chunk_ok. split; [|apply dinit_mode]. destruct He; subst e.
-  - destruct (enc_utf8_concat _ _ HF) as [Hv Hb]. rewrite Hb. apply utf8_roundtrip_bytes. exact Hv.
-  - rewrite (enc_latin1_concat _ _ HF). apply latin1_roundtrip_bytes.
+  apply decode_chunk_ok. split; [|apply dinit_mode].
+  destruct (send_all_concat _ _ _ _ HF) as [Hv Hb]. rewrite Hb. destruct He; subst e.
+  - replace (match ss with [] => [] | _ :: _ => bom Utf8 end) with (@nil Z) by (destruct ss; reflexivity).
+    cbn [app enc1]. apply utf8_roundtrip_bytes. exact Hv.
+  - replace (match ss with [] => [] | _ :: _ => bom Latin1 end) with (@nil Z) by (destruct ss; reflexivity).
+    cbn [app enc1]. rewrite concat_map_single. apply latin1_roundtrip_bytes.
 Qed.
 
 (* ------------------------------------------------------------------------------------------------------------ *)
@@ -447,18 +684,20 @@ Proof.
     destruct (run_ops step s1 a) as [s2 o1]. destruct (run_ops step s2 b); reflexivity.
 Qed.
 
-Lemma sends_spec ss : forall st, (forall s, In s ss -> encode (tenc st) s <> None) ->
-  exists bs, Forall2 (fun s b => encode (tenc st) s = Some b) ss bs /\
-    run_ops tstep st (map TSend ss) = (mkt (tenc st) (dec st) (wire st ++ bs), map TSent bs).
+Lemma sends_spec ss : forall st, (forall s, In s ss -> encode_body (tenc st) s <> None) ->
+  exists bs, send_all (tenc st) (started st) ss = Some bs /\
+    run_ops tstep st (map TSend ss) =
+    (mkt (tenc st) (dec st) (wire st ++ bs) (match ss with [] => started st | _ :: _ => true end), map TSent bs).
 Proof.
   induction ss as [|x ss IH]; intros st H.
-  - exists []. split; [constructor|]. cbn [map run_ops]. rewrite app_nil_r. destruct st; reflexivity.
-  - cbn [map run_ops tstep].
-    destruct (encode (tenc st) x) as [b|] eqn:E; [|exfalso; apply (H x); [left; reflexivity|exact E]].
-    destruct (IH (mkt (tenc st) (dec st) (wire st ++ [b]))) as (bs & HF & HR).
+  - exists []. split; [reflexivity|]. cbn [map run_ops]. rewrite app_nil_r. destruct st; reflexivity.
+  - cbn [map run_ops tstep send_all]. unfold encode.
+    destruct (encode_body (tenc st) x) as [b|] eqn:E; [|exfalso; apply (H x); [left; reflexivity|exact E]].
+    set (b' := (if started st then [] else bom (tenc st)) ++ b).
+    destruct (IH (mkt (tenc st) (dec st) (wire st ++ [b']) true)) as (bs & HF & HR).
     { intros s Hs. cbn [tenc]. apply H. right; exact Hs. }
-    cbn [tenc dec wire] in HF, HR. exists (b :: bs). split; [constructor; assumption|].
-    rewrite HR. rewrite <- app_assoc. reflexivity.
+    cbn [tenc dec wire started] in HF, HR. exists (b' :: bs). rewrite HF. split; [reflexivity|].
+    rewrite HR. rewrite <- app_assoc. cbn [map app]. f_equal. f_equal. destruct ss; reflexivity.
 Qed.
 
 Lemma recv_loop_ok e w : forall d df o d' w' r,
@@ -491,19 +730,21 @@ Proof.
     + revert Hi. eapply IH; [|exact E2]. cbn [tenc dec wire]. exact Ho'.
 Qed.
 
-(* the same through the stream model: sends into the loop-back wire, then k receives up to EndOfStream *)
-Theorem text_roundtrip_stream e ss k s' outs : (e = Utf8 \/ e = Latin1) ->
-  (forall s, In s ss -> encode e s <> None) ->
+(* sends into the loop-back wire, then k receives up to EndOfStream: no decoding error, and the strings received
+   are those of whatever the wire decodes to *)
+Lemma stream_roundtrip_gen e ss k s' outs df o :
+  (forall s, In s ss -> encode_body e s <> None) ->
+  (forall bs, send_all e false ss = Some bs -> decode_seq e (dinit e) bs = DOk df o) ->
   run_ops tstep (tinit e []) (map TSend ss ++ repeat TRecv k) = (s', outs) ->
-  In TEnd outs -> (forall c, ~ In (TDecErr c) outs) /\ strs outs = concat ss.
+  In TEnd outs -> (forall c, ~ In (TDecErr c) outs) /\ strs outs = o.
 Proof.
-  intros He Henc H Hend. rewrite run_ops_app in H.
+  intros Henc Hrt H Hend. rewrite run_ops_app in H.
   destruct (sends_spec ss (tinit e []) Henc) as (bs & HF & HR).
-  unfold tinit in HF, HR, H. cbn [tenc dec wire app] in HF, HR. rewrite HR in H.
-  destruct (run_ops tstep (mkt e (dinit e) bs) (repeat TRecv k)) as [s2 outs2] eqn:E2.
+  unfold tinit in HF, HR, H. cbn [tenc dec wire started app] in HF, HR. rewrite HR in H.
+  match type of H with context [run_ops tstep ?st (repeat TRecv k)] =>
+    destruct (run_ops tstep st (repeat TRecv k)) as [s2 outs2] eqn:E2 end.
   inversion H; subst. clear H.
-  assert (Hall : decode_seq e (dinit e) bs = DOk (dinit e) (concat ss))
-    by (eapply text_roundtrip; [exact He|exact HF|reflexivity]).
+  pose proof (Hrt _ HF) as Hall.
   assert (Hne2 : forall c, ~ In (TDecErr c) outs2)
     by (eapply recvs_ok; [|exact E2]; cbn [tenc dec wire]; exact Hall).
   assert (Hend2 : In TEnd outs2).
@@ -517,11 +758,181 @@ Proof.
   - rewrite strs_app, strs_sent. reflexivity.
 Qed.
 
-(* ------------------------------------------------------------------------------------------------------------ *)
-(* the real code violates the round-trip clause for 'utf-16'/'utf-32' (a BOM per send): witnesses by vm_compute *)
+(* the same through the stream model: sends into the loop-back wire, then k receives up to EndOfStream *)
+Theorem text_roundtrip_stream e ss k s' outs : (e = Utf8 \/ e = Latin1) ->
+  (forall s, In s ss -> encode_body e s <> None) ->
+  run_ops tstep (tinit e []) (map TSend ss ++ repeat TRecv k) = (s', outs) ->
+  In TEnd outs -> (forall c, ~ In (TDecErr c) outs) /\ strs outs = concat ss.
+Proof.
+  intros He Henc H Hend. eapply stream_roundtrip_gen; [exact Henc| |exact H|exact Hend].
+  intros bs HF. eapply text_roundtrip; [exact He|exact HF|reflexivity].
+Qed.
 
-Theorem text_roundtrip_utf16_refuted : exists ss bs d' o,
-  Forall2 (fun s b => encode Utf16 s = Some b) ss bs /\
+(* ------------------------------------------------------------------------------------------------------------ *)
+(* round trip for EVERY encoding on HEAD (stateful encoder: one BOM): utf-16/utf-32 with BOM, and the -le/-be
+   variants, through any re-chunking *)
+
+Lemma dstep_cl e m p b :
+  dstep e (mkd m p) b =
+  match classify e m (p ++ [b]) with
+  | Out cps nm => DOk (mkd (match nm with Some m' => m' | None => m end) []) cps
+  | More => DOk (mkd m (p ++ [b])) []
+  | Bad c => DErr c
+  end.
+Proof. reflexivity. Qed.
+
+Lemma put16_spec le u : exists x y, put16 le u = [x; y] /\ unit16 le x y = u.
+Proof. destruct le; eexists; eexists; (split; [reflexivity|]); unfold unit16; lia. Qed.
+
+Lemma u16c_2 le nm x y : (unit16 le x y < 0xD800 \/ 0xDFFF < unit16 le x y) ->
+  u16_classify le nm [x; y] = Out [unit16 le x y] nm.
+Proof.
+  intros H. unfold u16_classify, is_lo, is_hi, inr. cbv zeta.
+  set (u := unit16 le x y) in *. bool_cases.
+Qed.
+
+Lemma u16c_hi le nm x y : 0xD800 <= unit16 le x y <= 0xDBFF -> u16_classify le nm [x; y] = More.
+Proof.
+  intros H. unfold u16_classify, is_lo, is_hi, inr. cbv zeta.
+  set (u := unit16 le x y) in *. bool_cases.
+Qed.
+
+Lemma u16c_4 le nm x y z t : 0xDC00 <= unit16 le z t <= 0xDFFF ->
+  u16_classify le nm [x; y; z; t] =
+  Out [0x10000 + (unit16 le x y - 0xD800) * 1024 + (unit16 le z t - 0xDC00)] nm.
+Proof.
+  intros H. unfold u16_classify, is_lo, inr. cbv zeta.
+  set (u := unit16 le x y) in *. set (v := unit16 le z t) in *. bool_cases.
+Qed.
+
+Local Notation rest_of e m r cp :=
+  (match run_bytes e (mkd m []) r with DErr c => DErr c | DOk s2 o2 => DOk s2 (cp :: o2) end).
+
+Lemma u16_rt_cp e m le cp r : (forall p, classify e m p = u16_classify le None p) ->
+  valid_scalar cp = true ->
+  run_bytes e (mkd m []) (u16_enc1 le cp ++ r) = rest_of e m r cp.
+Proof.
+  intros Hcl Hv. apply valid_scalar_spec in Hv. destruct Hv as [Hr Hs]. unfold u16_enc1.
+  destruct (Z.ltb_spec cp 0x10000).
+  - destruct (put16_spec le cp) as (x & y & -> & Hu). cbn [app run_bytes].
+    rewrite dstep_cl, Hcl. cbn [app u16_classify]. cbv beta iota.
+    rewrite dstep_cl, Hcl. cbn [app]. rewrite u16c_2 by lia. rewrite Hu.
+    destruct (run_bytes e (mkd m []) r); reflexivity.
+  - destruct (put16_spec le (0xD800 + (cp - 0x10000) / 1024)) as (x & y & -> & Hu).
+    destruct (put16_spec le (0xDC00 + (cp - 0x10000) mod 1024)) as (z & t & -> & Hv).
+    cbn [app run_bytes].
+    rewrite dstep_cl, Hcl. cbn [app u16_classify]. cbv beta iota.
+    rewrite dstep_cl, Hcl. cbn [app]. rewrite u16c_hi by lia.
+    rewrite dstep_cl, Hcl. cbn [app u16_classify]. cbv beta iota.
+    rewrite dstep_cl, Hcl. cbn [app]. rewrite u16c_4 by lia. rewrite Hu, Hv.
+    replace (0x10000 + (0xD800 + (cp - 0x10000) / 1024 - 0xD800) * 1024 +
+             (0xDC00 + (cp - 0x10000) mod 1024 - 0xDC00)) with cp by lia.
+    destruct (run_bytes e (mkd m []) r); reflexivity.
+Qed.
+
+Lemma u32_enc1_spec le cp : exists a b c d, u32_enc1 le cp = [a; b; c; d] /\ unit32 le a b c d = cp.
+Proof.
+  destruct le; do 4 eexists; (split; [reflexivity|]); unfold unit32; lia.
+Qed.
+
+Lemma u32_rt_cp e m le cp r : (forall p, classify e m p = u32_classify le None p) ->
+  valid_scalar cp = true ->
+  run_bytes e (mkd m []) (u32_enc1 le cp ++ r) = rest_of e m r cp.
+Proof.
+  intros Hcl Hv. destruct (u32_enc1_spec le cp) as (a & b & c & d & -> & Hu).
+  cbn [app run_bytes].
+  rewrite dstep_cl, Hcl. cbn [app u32_classify]. cbv beta iota.
+  rewrite dstep_cl, Hcl. cbn [app u32_classify]. cbv beta iota.
+  rewrite dstep_cl, Hcl. cbn [app u32_classify]. cbv beta iota.
+  rewrite dstep_cl, Hcl. cbn [app u32_classify]. cbv beta iota zeta. rewrite Hu, Hv.
+  destruct (run_bytes e (mkd m []) r); reflexivity.
+Qed.
+
+(* the mode in which data is decoded: after the BOM for 'utf-16'/'utf-32' (native = little endian) *)
+Definition data_mode (e : enc) : nat :=
+  match e with Utf16BE | Utf32BE => 2 | _ => 1 end%nat.
+
+Lemma cp_rt e cp r : okc e cp = true ->
+  run_bytes e (mkd (data_mode e) []) (enc1 e cp ++ r) = rest_of e (data_mode e) r cp.
+Proof.
+  destruct e; cbn [okc enc1 data_mode]; intros H.
+  - apply u8_rt_cp; exact H.
+  - cbn [app run_bytes]. change (dstep Latin1 (mkd 1 []) cp) with (DOk (mkd 1 []) [cp]). cbv beta iota.
+    destruct (run_bytes Latin1 (mkd 1 []) r); reflexivity.
+  - apply u16_rt_cp; [reflexivity|exact H].
+  - apply u16_rt_cp; [reflexivity|exact H].
+  - apply u16_rt_cp; [reflexivity|exact H].
+  - apply u32_rt_cp; [reflexivity|exact H].
+  - apply u32_rt_cp; [reflexivity|exact H].
+  - apply u32_rt_cp; [reflexivity|exact H].
+Qed.
+
+Lemma bytes_rt e s : forallb (okc e) s = true ->
+  run_bytes e (mkd (data_mode e) []) (concat (map (enc1 e) s)) = DOk (mkd (data_mode e) []) s.
+Proof.
+  induction s as [|cp s IH]; intros H; cbn [map concat forallb] in *; [reflexivity|].
+  apply andb_prop in H. destruct H as [Hc Hs].
+  rewrite cp_rt by exact Hc. rewrite IH by exact Hs. reflexivity.
+Qed.
+
+Lemma bom_rt e r : run_bytes e (dinit e) (bom e ++ r) = run_bytes e (mkd (data_mode e) []) r.
+Proof.
+  destruct e; try reflexivity.
+  - cbn [bom app run_bytes]. change (dinit Utf16) with (mkd 0 []).
+    change (dstep Utf16 (mkd 0 []) 0xFF) with (DOk (mkd 0 [0xFF]) []). cbv beta iota.
+    change (dstep Utf16 (mkd 0 [0xFF]) 0xFE) with (DOk (mkd 1 []) []). cbv beta iota.
+    cbn [data_mode]. destruct (run_bytes Utf16 (mkd 1 []) r); reflexivity.
+  - cbn [bom app run_bytes]. change (dinit Utf32) with (mkd 0 []).
+    change (dstep Utf32 (mkd 0 []) 0xFF) with (DOk (mkd 0 [0xFF]) []). cbv beta iota.
+    change (dstep Utf32 (mkd 0 [0xFF]) 0xFE) with (DOk (mkd 0 [0xFF; 0xFE]) []). cbv beta iota.
+    change (dstep Utf32 (mkd 0 [0xFF; 0xFE]) 0) with (DOk (mkd 0 [0xFF; 0xFE; 0]) []). cbv beta iota.
+    change (dstep Utf32 (mkd 0 [0xFF; 0xFE; 0]) 0) with (DOk (mkd 1 []) []). cbv beta iota.
+    cbn [data_mode]. destruct (run_bytes Utf32 (mkd 1 []) r); reflexivity.
+Qed.
+
+Lemma data_mode_ok e : data_mode e <> 3%nat.
+Proof. destruct e; cbn; discriminate. Qed.
+
+(* the final decoder state: untouched when nothing was sent, otherwise in data mode with nothing pending *)
+Definition dfinal (e : enc) (ss : list (list Z)) : dst :=
+  match ss with [] => dinit e | _ :: _ => mkd (data_mode e) [] end.
+
+Lemma text_roundtrip_all_state e ss bs w :
+  send_all e false ss = Some bs -> concat w = concat bs ->
+  decode_seq e (dinit e) w = DOk (dfinal e ss) (concat ss).
+Proof.
+  intros HF Hc. destruct (send_all_concat _ _ _ _ HF) as [Hv Hb].
+  apply text_chunking_invariant; [apply dinit_mode|]. rewrite Hc, Hb.
+  apply decode_chunk_ok. destruct ss as [|s0 ss'].
+  - split; [reflexivity|apply dinit_mode].
+  - cbv beta iota. cbn [dfinal]. split; [|apply data_mode_ok].
+    rewrite bom_rt. apply bytes_rt. exact Hv.
+Qed.
+
+Theorem text_roundtrip_all e ss bs w :
+  send_all e false ss = Some bs -> concat w = concat bs ->
+  exists d', decode_seq e (dinit e) w = DOk d' (concat ss) /\ pend d' = [].
+Proof.
+  intros HF Hc. exists (dfinal e ss). split; [eapply text_roundtrip_all_state; eauto|].
+  destruct ss; [destruct e|]; reflexivity.
+Qed.
+
+(* and through the stream model, for every encoding *)
+Theorem text_roundtrip_stream_all e ss k s' outs :
+  (forall s, In s ss -> encode_body e s <> None) ->
+  run_ops tstep (tinit e []) (map TSend ss ++ repeat TRecv k) = (s', outs) ->
+  In TEnd outs -> (forall c, ~ In (TDecErr c) outs) /\ strs outs = concat ss.
+Proof.
+  intros Henc H Hend. eapply stream_roundtrip_gen; [exact Henc| |exact H|exact Hend].
+  intros bs HF. eapply text_roundtrip_all_state; [exact HF|reflexivity].
+Qed.
+
+(* ------------------------------------------------------------------------------------------------------------ *)
+(* the pinned code (stateless encoder: a BOM per send) violates the round-trip clause for 'utf-16'/'utf-32':
+   witnesses by vm_compute *)
+
+Theorem text_roundtrip_utf16_refuted_pinned : exists ss bs d' o,
+  Forall2 (fun s b => encode_pinned Utf16 s = Some b) ss bs /\
   decode_seq Utf16 (dinit Utf16) bs = DOk d' o /\ o <> concat ss.
 Proof.
   exists [[97]; [98]], [[0xFF; 0xFE; 97; 0]; [0xFF; 0xFE; 98; 0]], (mkd 1 []), [97; 65279; 98].
@@ -531,8 +942,8 @@ Proof.
   - vm_compute. discriminate.
 Qed.
 
-Theorem text_roundtrip_utf32_refuted : exists ss bs d' o,
-  Forall2 (fun s b => encode Utf32 s = Some b) ss bs /\
+Theorem text_roundtrip_utf32_refuted_pinned : exists ss bs d' o,
+  Forall2 (fun s b => encode_pinned Utf32 s = Some b) ss bs /\
   decode_seq Utf32 (dinit Utf32) bs = DOk d' o /\ o <> concat ss.
 Proof.
   exists [[97]; [98]], [[0xFF; 0xFE; 0; 0; 97; 0; 0; 0]; [0xFF; 0xFE; 0; 0; 98; 0; 0; 0]], (mkd 1 []), [97; 65279; 98].
@@ -562,6 +973,10 @@ Proof. vm_compute. reflexivity. Qed.
 Example ex_surrogate : run_bytes Utf8 (dinit Utf8) [0xED; 0xA0; 0x80] = DErr 2.
 Proof. vm_compute. reflexivity. Qed.
 
+(* a truncated surrogate prefix is kept pending (CPython reports it as incomplete); it fails with the next byte *)
+Example ex_surrogate_prefix : run_bytes Utf8 (dinit Utf8) [0xED; 0xA0] = DOk (mkd 1 [0xED; 0xA0]) [].
+Proof. vm_compute. reflexivity. Qed.
+
 Example ex_above_max : run_bytes Utf8 (dinit Utf8) [0xF4; 0x90; 0x80; 0x80] = DErr 2.
 Proof. vm_compute. reflexivity. Qed.
 
@@ -578,10 +993,10 @@ Proof. vm_compute. reflexivity. Qed.
 (* receive() skips chunks that produce no output *)
 Example ex_recv_skips :
   tstep (tinit Utf8 [[0xE2]; [0x82]; [0xAC; 0x61]; [0x62]]) TRecv =
-  (mkt Utf8 (dinit Utf8) [[0x62]], TStr [0x20AC; 0x61]).
+  (mkt Utf8 (dinit Utf8) [[0x62]] false, TStr [0x20AC; 0x61]).
 Proof. vm_compute. reflexivity. Qed.
 
-(* the hypotheses of text_stream_transparent are met by a concrete run *)
+(* the premises of text_stream_transparent are met by a concrete run *)
 Example ex_transparent_hyps :
   let w := [[0x68; 0xC3]; [0xA9]; []; [0xF0; 0x9F]; [0x98; 0x80; 0x21]] in
   exists s' outs,
@@ -598,7 +1013,7 @@ Proof.
   - vm_compute. reflexivity.
 Qed.
 
-(* the hypotheses of text_roundtrip_stream are met by a concrete run (utf-8 and latin-1) *)
+(* the premises of text_roundtrip_stream are met by a concrete run (utf-8 and latin-1) *)
 Example ex_roundtrip_stream_hyps :
   exists s' outs,
     run_ops tstep (tinit Utf8 []) (map TSend [[0x68; 0xE9]; []; [0x1F600]] ++ repeat TRecv 3) = (s', outs) /\
@@ -609,6 +1024,27 @@ Proof.
   - vm_compute. reflexivity.
 Qed.
 
-(* latin-1 refuses code points above 255: the encodability hypothesis of text_roundtrip_stream is not vacuous *)
+(* latin-1 refuses code points above 255: the encodability premise of text_roundtrip_stream is not vacuous *)
 Example ex_latin1_encerr : tstep (tinit Latin1 []) (TSend [0x100]) = (tinit Latin1 [], TEncErr).
+Proof. vm_compute. reflexivity. Qed.
+
+(* HEAD: 'utf-16' sends write one BOM only; the wire re-chunked at odd offsets decodes to the concatenation *)
+Example ex_utf16_head :
+  send_all Utf16 false [[97]; [0x1F600]; [98]] =
+    Some [[0xFF; 0xFE; 97; 0]; [0x3D; 0xD8; 0x00; 0xDE]; [98; 0]] /\
+  decode_seq Utf16 (dinit Utf16) [[0xFF]; [0xFE; 97; 0; 0x3D]; [0xD8; 0x00]; [0xDE; 98; 0]] =
+    DOk (mkd 1 []) [97; 0x1F600; 98].
+Proof. split; vm_compute; reflexivity. Qed.
+
+Example ex_utf32be_head :
+  send_all Utf32BE false [[0x1F600]; [98]] = Some [[0; 1; 0xF6; 0]; [0; 0; 0; 98]] /\
+  decode_seq Utf32BE (dinit Utf32BE) [[0; 1; 0xF6]; [0; 0; 0; 0]; [98]] = DOk (mkd 2 []) [0x1F600; 98].
+Proof. split; vm_compute; reflexivity. Qed.
+
+(* a lone surrogate is not encodable: the encodability premise is not vacuous for utf-16 either *)
+Example ex_utf16_encerr : send_all Utf16 false [[0xD800]] = None.
+Proof. vm_compute. reflexivity. Qed.
+
+(* utf8_decode_sound is about complete inputs only: a non-canonical input is refused, not normalised *)
+Example ex_noncanonical : run_bytes Utf8 (dinit Utf8) [0xF0; 0x82; 0x82; 0xAC] = DErr 2.
 Proof. vm_compute. reflexivity. Qed.
